@@ -381,6 +381,9 @@ impl Check for C04 {
         out
     }
 
+    fn interference(&self) -> bool {
+        true
+    }
     fn required_probes(&self, _tier: Tier) -> Vec<&'static str> {
         vec![
             "probe:accepted_v1",
